@@ -200,4 +200,12 @@ def rule_xlsx_writer(ctx):
     decide(ctx, "O16.5", "XlsxRowWriter(write_string at line/cell)", "cutplace.rowio.XlsxRowWriter.write_row", cell, min_cells=3)
 
 
-RULES = [rule_sheet_selection, rule_cell_values, rule_xlsx_writer]
+def rule_raw_rows_dispatch(ctx):
+    """O16.6: the requested sheet number reaches excel_rows."""
+    from .c17 import raw_rows_dispatch_table
+
+    ctx.res.minimum("O16.6", 1)
+    raw_rows_dispatch_table(ctx, "O16.6")
+
+
+RULES = [rule_sheet_selection, rule_cell_values, rule_xlsx_writer, rule_raw_rows_dispatch]
